@@ -151,17 +151,38 @@ def _pw(A, k, p, q=None):
 
 
 def derive(A, f, sigs, pred=None):
-    """step signal of a formula built from pointwise operators over ONE variable and constants: same break-points"""
+    """step signal (same break-points as the single input variable) of a formula built from pointwise operators and
+    UNBOUNDED temporal operators over ONE variable and constants.  once/historically are running max/min over the
+    segments so far, eventually/always over the segments from here on (last value held)."""
     k = f[0]
     if k == 'var':
         return [[t, A.lift(v)] for t, v in sigs[f[1]]]
     vs = sorted(_vars(f))
     if len(vs) != 1:
         raise ValueError('derive: needs exactly one variable')
+    if k in ('once', 'historically', 'eventually', 'always'):
+        d = derive(A, f[1], sigs, pred)
+        agg = A.max if k in ('once', 'eventually') else A.min
+        n = len(d)
+        if k in ('once', 'historically'):
+            return [[d[i][0], agg([d[j][1] for j in range(0, i + 1)])] for i in range(n)]
+        return [[d[i][0], agg([d[j][1] for j in range(i, n)])] for i in range(n)]
+    if _is_pointwise(f):
+        base = sigs[vs[0]]
+        return [[t, point(A, f, {vs[0]: v}, pred)] for t, v in base]
+    # pointwise operator over derivable operands of the same variable
+    kids_ = [derive(A, c, sigs, pred) if isinstance(c, tuple) and c[0] != 'const' else None for c in f[1:] if isinstance(c, tuple)]
     base = sigs[vs[0]]
     out = []
-    for t, v in base:
-        out.append([t, point(A, f, {vs[0]: v}, pred)])
+    for i, (t, _) in enumerate(base):
+        vals = [(kd[i][1] if kd is not None else A.lift(c[1])) for kd, c in zip(kids_, [c for c in f[1:] if isinstance(c, tuple)])]
+        if k in POINTWISE1:
+            out.append([t, _pw(A, k, vals[0])])
+        else:
+            v = None
+            if pred is not None and k in ('leq', 'lt', 'geq', 'gt', 'eq', 'neq'):
+                v = pred(f, vals[0], vals[1])
+            out.append([t, v if v is not None else _pw(A, k, vals[0], vals[1])])
     return out
 
 
